@@ -1,5 +1,9 @@
 import AlgoVerif.Driver.C28
-/-! exe `c28`: Model.Authz behind the line protocol (verify layer `g …` lines, evaluator layer `reset`/`grp …` lines). -/
-open AlgoVerif
-def main (_args : List String) : IO UInt32 := do
-  Drv.foldLines ([] : Driver.C28.Accts) Driver.C28.step; return 0
+import AlgoVerif.Gen.AuthzCacheKey
+/-! exe `c28`: Model.Authz behind the line protocol (verify layer `g …`, cache path `c …`, evaluator layer `reset`/`grp …`).
+The cache model compares the fields listed in Gen/AuthzCacheKey.lean (regenerated from the Go source on every run);
+`c28 all-fields` compares all five fields regardless (the behaviour the theorems demand). -/
+open AlgoVerif AlgoVerif.Model.Authz
+def main (args : List String) : IO UInt32 := do
+  let fields : List Field := if args.contains "all-fields" then [.sig, .msig, .lsig, .pqsig, .authAddr] else Gen.AuthzCacheKey.comparedFields
+  Drv.foldLines ({} : Driver.C28.State) (Driver.C28.step fields); return 0
